@@ -212,7 +212,21 @@ func (dl *dialLimiter) AddDialJob(dj *dialJob) {
 func (dl *dialLimiter) clearAllPeerDials(p peer.ID) {
 	dl.lk.Lock()
 	defer dl.lk.Unlock()
-	delete(dl.waitingOnPeerLimit, p)
+	// A new dial worker for the same peer may already have queued jobs here (the
+	// list is keyed by peer, and the worker that calls this exits some time after its
+	// last caller left): drop only the jobs of the exiting worker, which are
+	// cancelled by now, and keep the live ones.
+	var live []*dialJob
+	for _, j := range dl.waitingOnPeerLimit[p] {
+		if !j.cancelled() {
+			live = append(live, j)
+		}
+	}
+	if len(live) > 0 {
+		dl.waitingOnPeerLimit[p] = live
+	} else {
+		delete(dl.waitingOnPeerLimit, p)
+	}
 	log.Debug("[limiter] clearing all peer dials", "peer", p)
 	// NB: the waitingOnFd list doesn't need to be cleaned out here, we will
 	// remove them as we encounter them because they are 'cancelled' at this
